@@ -327,7 +327,7 @@ def _r1(ch, ctr):
         return None
     init, f = fargs
     n = ctr.next()
-    return ("{\n let mut acc_%d = %s;\n let mut it_%d = %s;\n let end_%d = %s;\n while it_%d < end_%d\n {\n %s\n let keep_%d = %s;\n"
+    return ("{\n let mut acc_%d = %s;\n let mut it_%d = %s;\n let end_%d = %s;\n /*@L:R1*/ while it_%d < end_%d\n {\n %s\n let keep_%d = %s;\n"
             " if keep_%d { acc_%d = %s(acc_%d, it_%d); }\n it_%d += 1;\n }\n acc_%d\n}") % (
         n, init, n, a, n, b, n, n, bind(pat, "it_%d" % n, True), n, _as_block(body), n, n, f, n, n, n, n)
 
@@ -367,7 +367,7 @@ def _r2(ch, ctr):
         return None
     d = _arg(ch, uo).strip()
     n = ctr.next()
-    return ("{\n let mut found_%d = None;\n let mut it_%d = %s;\n let end_%d = %s;\n while it_%d < end_%d\n {\n %s\n let item_%d = %s;\n"
+    return ("{\n let mut found_%d = None;\n let mut it_%d = %s;\n let end_%d = %s;\n /*@L:R2*/ while it_%d < end_%d\n {\n %s\n let item_%d = %s;\n"
             " let pred_%d = { %s %s };\n if pred_%d { found_%d = Some(item_%d); break; }\n it_%d += 1;\n }\n"
             " match found_%d { Some(%s) => %s, None => %s }\n}") % (
         n, n, a, n, b, n, n, bind(c1[0], "it_%d" % n, False), n, _as_block(c1[1]),
@@ -384,7 +384,7 @@ def _r4(ch, ctr):
     recv = ch.prefix_text(len(ch.segs) - 1)
     n = ctr.next()
     is_any = seg.name == "any"
-    return ("{\n let it_%d = %s;\n let mut res_%d = %s;\n let mut k_%d: usize = 0;\n while k_%d < it_%d.len() && %sres_%d\n {\n"
+    return ("{\n let it_%d = %s;\n let mut res_%d = %s;\n let mut k_%d: usize = 0;\n /*@L:R4*/ while k_%d < it_%d.len() && %sres_%d\n {\n"
             " %s\n let body_%d = %s;\n if %sbody_%d { res_%d = %s; }\n k_%d += 1;\n }\n res_%d\n}") % (
         n, recv, n, "false" if is_any else "true", n, n, n, "!" if is_any else "", n,
         bind(pat, "it_%d.get(k_%d)" % (n, n), False), n, _as_block(body), "" if is_any else "!", n, n,
@@ -398,7 +398,7 @@ def _r5(ch, ctr):
         return None
     recv = ch.prefix_text(len(ch.segs) - 2)
     n = ctr.next()
-    return ("{\n let mut pos_%d: Option<usize> = None;\n let mut k_%d: usize = 0;\n while k_%d < %s.len()\n {\n %s\n"
+    return ("{\n let mut pos_%d: Option<usize> = None;\n let mut k_%d: usize = 0;\n /*@L:R5*/ while k_%d < %s.len()\n {\n %s\n"
             " let body_%d = %s;\n if body_%d { pos_%d = Some(k_%d); break; }\n k_%d += 1;\n }\n pos_%d\n}") % (
         n, n, n, recv, bind(cl[0], "&%s[k_%d]" % (recv, n), False), n, _as_block(cl[1]), n, n, n, n, n)
 
@@ -406,7 +406,7 @@ def _r5(ch, ctr):
 def _r6(ch, ctr):
     recv = ch.prefix_text(len(ch.segs) - 3)
     n = ctr.next()
-    return ("{\n vx_check(%s.len() > 0);\n let mut mi_%d: usize = 0;\n let mut k_%d: usize = 1;\n while k_%d < %s.len()\n {\n"
+    return ("{\n vx_check(%s.len() > 0);\n let mut mi_%d: usize = 0;\n let mut k_%d: usize = 1;\n /*@L:R6*/ while k_%d < %s.len()\n {\n"
             " if %s[k_%d] >= %s[mi_%d] { mi_%d = k_%d; }\n k_%d += 1;\n }\n &%s[mi_%d]\n}") % (
         recv, n, n, n, recv, recv, n, recv, n, n, n, n, recv, n)
 
@@ -417,8 +417,8 @@ def _r7(ch, ctr):
     # X.iter().flatten().flatten().cloned().collect::<Vec<_>>()
     if ms[-5:] == ["iter", "flatten", "flatten", "cloned", "collect"]:
         recv = ch.prefix_text(len(ch.segs) - 5)
-        return ("{\n let mut out_%d = Vec::new();\n let mut a_%d: usize = 0;\n while a_%d < %s.len()\n {\n let mut b_%d: usize = 0;\n"
-                " while b_%d < %s[a_%d].len()\n {\n let mut c_%d: usize = 0;\n while c_%d < %s[a_%d][b_%d].len()\n {\n"
+        return ("{\n let mut out_%d = Vec::new();\n let mut a_%d: usize = 0;\n /*@L:R7*/ while a_%d < %s.len()\n {\n let mut b_%d: usize = 0;\n"
+                " /*@L:R7*/ while b_%d < %s[a_%d].len()\n {\n let mut c_%d: usize = 0;\n /*@L:R7*/ while c_%d < %s[a_%d][b_%d].len()\n {\n"
                 " out_%d.push(%s[a_%d][b_%d][c_%d].clone());\n c_%d += 1;\n }\n b_%d += 1;\n }\n a_%d += 1;\n }\n out_%d\n}") % (
             n, n, n, recv, n, n, recv, n, n, n, recv, n, n, n, recv, n, n, n, n, n, n, n)
     # X.iter().map(|p| BODY).collect()
@@ -427,7 +427,7 @@ def _r7(ch, ctr):
         if cl is None:
             return None
         recv = ch.prefix_text(len(ch.segs) - 3)
-        return ("{\n let mut out_%d = vx_collect_new();\n let mut k_%d: usize = 0;\n while k_%d < %s.len()\n {\n %s\n"
+        return ("{\n let mut out_%d = vx_collect_new();\n let mut k_%d: usize = 0;\n /*@L:R7*/ while k_%d < %s.len()\n {\n %s\n"
                 " let item_%d = %s;\n out_%d.push(item_%d);\n k_%d += 1;\n }\n out_%d\n}") % (
             n, n, n, recv, bind(cl[0], "&%s[k_%d]" % (recv, n), False), n, _as_block(cl[1]), n, n, n, n)
     return None
@@ -440,7 +440,7 @@ def _r12(ch, ctr):
         return None
     recv = ch.prefix_text(len(ch.segs) - 1)
     n = ctr.next()
-    return ("{\n let mut k_%d: usize = 0;\n while k_%d < %s.len()\n {\n let keep_%d = { %s %s };\n"
+    return ("{\n let mut k_%d: usize = 0;\n /*@L:R12*/ while k_%d < %s.len()\n {\n let keep_%d = { %s %s };\n"
             " if keep_%d { k_%d += 1; } else { %s.remove(k_%d); }\n }\n}") % (
         n, n, recv, n, bind(cl[0], "&%s[k_%d]" % (recv, n), False), cl[1], n, n, recv, n)
 
@@ -476,8 +476,8 @@ def _find_for_flatten(text):
 
             def mk(ctr, recv=recv, pat=pat, body=body, a=a, b=b, orig=text[a:toks[k].start]):
                 n = ctr.next()
-                repl = ("{\n let mut a_%d: usize = 0;\n while a_%d < %s.len()\n {\n let mut b_%d: usize = 0;\n"
-                        " while b_%d < %s[a_%d].len()\n {\n let %s = &%s[a_%d].as_slice()[b_%d];\n %s\n b_%d += 1;\n }\n a_%d += 1;\n }\n}") % (
+                repl = ("{\n let mut a_%d: usize = 0;\n /*@L:R3*/ while a_%d < %s.len()\n {\n let mut b_%d: usize = 0;\n"
+                        " /*@L:R3*/ while b_%d < %s[a_%d].len()\n {\n let %s = &%s[a_%d].as_slice()[b_%d];\n %s\n b_%d += 1;\n }\n a_%d += 1;\n }\n}") % (
                     n, n, recv, n, n, recv, n, pat, recv, n, n, body, n, n)
                 return a, b, repl, orig
             return mk
@@ -520,8 +520,8 @@ def rewrite_macros(text, table):
 
 
 def loops(text):
-    """offsets of the `{` that opens the body of every loop (`while`, `for`, `loop`) in textual order,
-    as (keyword_offset, open_brace_offset, close_brace_offset)"""
+    """every loop (`while`, `for`, `loop`) in textual order as (keyword_offset, open_brace_offset, close_brace_offset, kind);
+    kind is the lowering rule that generated the loop (marker /*@L:Rn*/) or the keyword itself"""
     toks = lex(text)
     mm = match_map(toks)
     out = []
@@ -538,5 +538,15 @@ def loops(text):
                 k += 1
             if k >= len(toks):
                 continue
-            out.append((t.start, toks[k].start, toks[mm[k]].start))
+            m = re.search(r"/\*@L:(R\d+)\*/\s*$", text[:t.start])
+            out.append((t.start, toks[k].start, toks[mm[k]].start, m.group(1) if m else t.text))
     return out
+
+
+def loop_keys(lp):
+    """kind#ordinal-within-kind for every loop"""
+    cnt, keys = {}, []
+    for (_, _, _, kind) in lp:
+        cnt[kind] = cnt.get(kind, 0) + 1
+        keys.append("%s#%d" % (kind, cnt[kind]))
+    return keys
